@@ -324,9 +324,19 @@ def footprint(ctx: Ctx):
         ctx.held("window-footprint", where, f"window-local operations only: {sorted(set(local))}", "footprint of output t is within periods t-w+1..t")
     # kernel / divisor / mode consistency of the convolution idiom (only if that idiom is used)
     convs = [n for n in ast.walk(m.node) if isinstance(n, ast.Call) and u(n.func) == "np.convolve"]
+    from ..stmts import resolver
+
+    res = resolver(m.node)  # locals substituted: whatever the window is called locally
     for c in convs:
-        kernel = u(c.args[1]) if len(c.args) > 1 else ""
-        mode = next((u(k.value) for k in c.keywords if k.arg == "mode"), None)
-        ok = kernel in ("np.ones(window)", "np.ones(self._window)") and mode == "'valid'"
+        kernel = u(res(c.args[1])) if len(c.args) > 1 else ""
+        mode = next((u(res(k.value)) for k in c.keywords if k.arg == "mode"), None)
+        # positive evidence only: a different literal mode, or a kernel of ones whose length is some OTHER function of
+        # the window; a kernel this rule cannot read is undecided
+        if kernel == "np.ones(self._window)" and mode == "'valid'":
+            ok = True
+        elif (mode is not None and mode.startswith("'") and mode != "'valid'") or (kernel.startswith("np.ones(") and "window" in kernel and kernel != "np.ones(self._window)"):
+            ok = False
+        else:
+            ok = None
         ctx.ob("window-footprint.kernel", where, f"kernel={kernel} mode={mode}", "kernel of `window` ones, mode 'valid' (only full windows produce a value; the first w-1 periods are the NaN prefix)", ok)
         ctx.count("convolution sites")
